@@ -68,7 +68,40 @@ TARGETS = [
     (f"{T}/spec/common/base_type.py", "_INT.to_bytes", ["C02"]),
     (f"{T}/spec/common/tpm_rc.py", "TPM_RC.__format__", ["C18"]),
     (f"{T}/spec/common/tpm_rc.py", "TPM_RC.attributes", ["C18"]),
+    # second batch
+    (f"{T}/common/canonical.py", "Canonical.__init__", ["C19", "C11"]),
+    (f"{T}/common/canonical.py", "Canonical.events", ["C19", "C11"]),
+    (f"{T}/common/canonical.py", "Canonical.object", ["C19", "C11"]),
+    (f"{T}/common/object.py", "_events_to_dict", ["C11", "C09"]),
+    (f"{T}/common/object.py", "_list_to_obj", ["C11"]),
+    (f"{T}/common/path.py", "PathNode.__str__", ["C01", "C14"]),
+    (f"{T}/common/path.py", "Path.__new__", ["C01"]),
+    (f"{T}/common/path.py", "Path.__add__", ["C01"]),
+    (f"{T}/common/path.py", "Path.__getitem__", ["C01"]),
+    (f"{T}/common/path.py", "Path.from_string", ["C01", "C05"]),
+    (f"{T}/io/binary/marshal.py", "process", ["C01", "C06"]),
+    (f"{T}/io/events/unmarshal.py", "unmarshal", ["C14"]),
+    (f"{T}/io/pretty/unmarshal.py", "unmarshal", ["C14"]),
+    (f"{T}/io/pretty/unmarshal.py", "get_type_name", ["C14"]),
+    (f"{T}/io/pretty/unmarshal.py", "pretty_list_elems", ["C14"]),
+    (f"{T}/io/pretty/unmarshal.py", "pretty_attrs", ["C14", "C17"]),
+    (f"{T}/spec/common/base_type.py", "numeric", ["C16", "C02"]),
+    (f"{T}/spec/common/base_type.py", "_INT.__init__", ["C02", "C04"]),
+    (f"{T}/spec/common/values.py", "ValidValues.__iter__", ["C04", "C16"]),
+    (f"{T}/spec/common/values.py", "NamedRange.__init__", ["C04", "C16"]),
+    (f"{T}/spec/common/values.py", "NamedRange.by_number", ["C04", "C16"]),
+    (f"{T}/spec/common/values.py", "NamedRange.by_name", ["C16"]),
+    (f"{T}/spec/common/values.py", "tpm_bitfield", ["C17"]),
+    (f"{T}/spec/common/values.py", "tpm_enum", ["C16", "C04"]),
+    (f"{T}/spec/common/values.py", "tpm_dataclass", ["C01", "C11"]),
+    (f"{T}/common/error.py", "ValueConstraintViolatedError.__init__", ["C04"]),
+    (f"{T}/common/error.py", "SizeConstraintExceededError.__init__", ["C03"]),
+    (f"{T}/common/error.py", "AnticipatedSizeConstraintExceededError.__init__", ["C03"]),
+    (f"{T}/common/constraints.py", "SizeConstraint.__init__", ["C03"]),
+    (f"{T}/__main__.py", "find_type", ["C19"]),
+    (f"{T}/__main__.py", "tpm_type_to_str", ["C19"]),
 ]
+BATCH2_FROM = "common/canonical.py"
 SWAP = {ast.Eq: ast.NotEq, ast.NotEq: ast.Eq, ast.Lt: ast.LtE, ast.LtE: ast.Lt, ast.Gt: ast.GtE, ast.GtE: ast.Gt,
         ast.Is: ast.IsNot, ast.IsNot: ast.Is, ast.In: ast.NotIn, ast.NotIn: ast.In}
 
@@ -189,12 +222,22 @@ def run_tests(job):
 def main():
     flt = sys.argv[1] if len(sys.argv) > 1 else ""
     jobs = []
-    for rel, qual, props in TARGETS:
+    targets = TARGETS
+    if flt == "batch2":
+        k = next(i for i, t in enumerate(TARGETS) if t[0].endswith(BATCH2_FROM))
+        targets, flt = TARGETS[k:], ""
+    for rel, qual, props in targets:
         if flt and flt not in rel + ":" + qual:
+            continue
+        if not os.path.exists(os.path.join("/repo/src", rel)):
             continue
         tree = ast.parse(open(os.path.join("/repo/src", rel)).read())
         # identity check: the unparsed original must be silent (unparse changes formatting only)
-        fn = find_fn(tree, qual)
+        try:
+            fn = find_fn(tree, qual)
+        except StopIteration:
+            print(f"(not found: {rel}:{qual})")
+            continue
         for idx, kind in sites(fn):
             jobs.append((rel, qual, props, idx, kind, tree))
     print(f"{len(jobs)} mutants")
